@@ -46,10 +46,10 @@ type c17Dec struct {
 
 type c17Type struct {
 	name  string
-	text  bool                                  // text (JSON/string) format
-	gen   func(r *rng) []byte                   // a valid encoding of a generated value
-	dec   func(b []byte) c17Dec                 // decode, re-encode, identity
-	value func(r *rng) (any, func() any)        // optional: value + fresh target, for the direct round-trip checks
+	text  bool                           // text (JSON/string) format
+	gen   func(r *rng) []byte            // a valid encoding of a generated value
+	dec   func(b []byte) c17Dec          // decode, re-encode, identity
+	value func(r *rng) (any, func() any) // optional: value + fresh target, for the direct round-trip checks
 }
 
 func c17Enc(s io.Serializable) ([]byte, error) {
@@ -310,7 +310,7 @@ func c17Types() []c17Type {
 			}
 			return &mpt.NodeObject{Node: b}
 		case 1:
-			return &mpt.NodeObject{Node: mpt.NewExtensionNode(r.bytes(1+r.intn(6))[:], mpt.NewHashNode(c17Hashes(r, 1)[0]))}
+			return &mpt.NodeObject{Node: mpt.NewExtensionNode(r.bytes(1 + r.intn(6))[:], mpt.NewHashNode(c17Hashes(r, 1)[0]))}
 		case 2:
 			return &mpt.NodeObject{Node: mpt.NewLeafNode(r.bytes(r.intn(40)))}
 		default:
@@ -447,9 +447,13 @@ func c17Types() []c17Type {
 				Witness: transaction.Witness{InvocationScript: r.bytes(66), VerificationScript: r.bytes(35)}}
 		}, func() io.Serializable { return &payload.P2PNotaryRequest{} },
 			func(v io.Serializable) (string, int) { return hx(v.(*payload.P2PNotaryRequest).Hash().BytesBE()), -1 }),
-		bin("version", func(r *rng) io.Serializable { return payload.NewVersion(netmode.Magic(r.next()), uint32(r.next()), pick(r, []string{"", "/neo-go:0.1/", strings.Repeat("u", 1024)}), caps(r)) },
+		bin("version", func(r *rng) io.Serializable {
+			return payload.NewVersion(netmode.Magic(r.next()), uint32(r.next()), pick(r, []string{"", "/neo-go:0.1/", strings.Repeat("u", 1024)}), caps(r))
+		},
 			func() io.Serializable { return &payload.Version{} }, nil),
-		bin("addr", func(r *rng) io.Serializable { return payload.NewAddressAndTime(tcp(r), time.Unix(int64(r.intn(1<<31)), 0), caps(r)) },
+		bin("addr", func(r *rng) io.Serializable {
+			return payload.NewAddressAndTime(tcp(r), time.Unix(int64(r.intn(1<<31)), 0), caps(r))
+		},
 			func() io.Serializable { return &payload.AddressAndTime{} }, nil),
 		bin("addrlist", func(r *rng) io.Serializable {
 			al := payload.NewAddressList(1 + r.intn(3))
@@ -458,9 +462,13 @@ func c17Types() []c17Type {
 			}
 			return al
 		}, func() io.Serializable { return &payload.AddressList{} }, nil),
-		bin("getblockbyindex", func(r *rng) io.Serializable { return payload.NewGetBlockByIndex(uint32(r.next()), int16(pick(r, []int{-1, 1, 500}))) },
+		bin("getblockbyindex", func(r *rng) io.Serializable {
+			return payload.NewGetBlockByIndex(uint32(r.next()), int16(pick(r, []int{-1, 1, 500})))
+		},
 			func() io.Serializable { return &payload.GetBlockByIndex{} }, nil),
-		bin("getblocks", func(r *rng) io.Serializable { return payload.NewGetBlocks(c17Hashes(r, 1)[0], int16(pick(r, []int{-1, 1, 500}))) },
+		bin("getblocks", func(r *rng) io.Serializable {
+			return payload.NewGetBlocks(c17Hashes(r, 1)[0], int16(pick(r, []int{-1, 1, 500})))
+		},
 			func() io.Serializable { return &payload.GetBlocks{} }, nil),
 		bin("headers", func(r *rng) io.Serializable {
 			h := &payload.Headers{}
@@ -476,7 +484,9 @@ func c17Types() []c17Type {
 			n := r.intn(10)
 			return &payload.MerkleBlock{Header: c17GenHeader(r, false), TxCount: n, Hashes: c17Hashes(r, n), Flags: r.bytes((n + 7) / 8)}
 		}, func() io.Serializable { return &payload.MerkleBlock{} }, nil),
-		bin("mptdata", func(r *rng) io.Serializable { return &payload.MPTData{Nodes: [][]byte{r.bytes(1 + r.intn(50)), r.bytes(1)}} },
+		bin("mptdata", func(r *rng) io.Serializable {
+			return &payload.MPTData{Nodes: [][]byte{r.bytes(1 + r.intn(50)), r.bytes(1)}}
+		},
 			func() io.Serializable { return &payload.MPTData{} }, nil),
 		bin("mptinventory", func(r *rng) io.Serializable { return payload.NewMPTInventory(c17Hashes(r, 1+r.intn(32))) },
 			func() io.Serializable { return &payload.MPTInventory{} }, nil),
@@ -500,20 +510,34 @@ func c17Types() []c17Type {
 				return c17Dec{Err: err.Error(), Size: -1}
 			}
 			out := c17Dec{OK: true, Size: -1}
-			re, err := m.Bytes()
+			// the frame is compared in its UNCOMPRESSED form: lz4 block compression is not canonical (the library
+			// reuses pooled hash tables, the same payload was seen to compress to 3914 and to 3915 bytes), and the
+			// compressed form is not part of any identity; the compressed re-encoding must still decode to the same frame
+			re, err := m.BytesCompressed(false)
 			if err != nil {
 				out.Note = "decoded message cannot be re-encoded: " + err.Error()
 				return out
 			}
+			re = bytes.Clone(re)
 			out.Reenc = hx(re)
 			m2 := &network.Message{}
 			if err := m2.Decode(io.NewBinReaderFromBuf(re)); err != nil {
 				out.Note = "re-encoding is rejected by the decoder: " + err.Error()
 				return out
 			}
-			re2, err := m2.Bytes()
+			re2, err := m2.BytesCompressed(false)
 			if err != nil || !bytes.Equal(re, re2) {
 				out.Note = "re-encoding is not a fixpoint of decode;encode"
+			}
+			if rc, err := m.Bytes(); err != nil {
+				out.Note = "decoded message cannot be re-encoded with compression: " + err.Error()
+			} else {
+				m3 := &network.Message{}
+				if err := m3.Decode(io.NewBinReaderFromBuf(rc)); err != nil {
+					out.Note = "re-encoding is rejected by the decoder: " + err.Error()
+				} else if re3, err := m3.BytesCompressed(false); err != nil || !bytes.Equal(re, re3) {
+					out.Note = "compressed re-encoding decodes to another frame"
+				}
 			}
 			if t1, ok := m.Payload.(*transaction.Transaction); ok {
 				if t2 := m2.Payload.(*transaction.Transaction); t1.Hash() != t2.Hash() || t1.Size() != t2.Size() {
